@@ -269,6 +269,14 @@ def gen_hist(rng, klass=None):
                 else:
                     op["crash"] = rng.randint(0, len(op["src"]) + 2)
             ops.append(op)
+            if op.get("crash") is not None or op.get("wcrash") is not None:
+                # what the dead writer left is met by the next writer of the same blob
+                if rng.random() < 0.8:
+                    if rng.random() < 0.8:
+                        ops.append({"op": "put", "d": d, "size": len(c), "src": mk_src(rng, c, rng.choice(["honest", "honest-eof"])), "k": "honest-after-crash"})
+                    else:
+                        ops.append({"op": "import", "src": mk_src(rng, c, "honest"), "size": len(c)})
+                    ops.append({"op": "get", "d": d})
         elif r < 0.48:
             src = mk_src(rng, c, rng.choice(["honest", "honest-eof", "err", "short", "long-after"]))
             size = len(src_total(src)) if rng.random() < 0.7 else len(c)
@@ -293,7 +301,41 @@ def gen_hist(rng, klass=None):
             p = "/".join(name_to_path(rnd_name(rng, b)))
             ops.append({"op": "raw", "path": p, "data": hx(rng.choice(pool) if rng.random() < 0.6 else rnd_content(rng, rng.randint(0, 9)))})
     return {"kind": "hist", "pool": [hx(c) for c in pool], "digests": [sha(c) for c in pool], "ops": ops, "klass": klass or "hist",
+            "clock": rng.choice(["frozen", "frozen", "coarse", "normal"]),
             "probe": sorted({op["name"] for op in ops if op["op"] in ("link", "resolve", "unlink") and "@" not in op["name"]})}
+
+
+def gen_relink_hist(rng):
+    """Resolve - relink to another manifest of the same length - Resolve, repeatedly, under a clock that does not advance
+    (or advances coarsely): whatever Resolve remembers about a name must not outlive a Link, an Unlink or a hand edit"""
+    n = rng.randint(1, 12)
+    pool = []
+    while len(pool) < 3:
+        c = rnd_content(rng, n)
+        if c not in pool:
+            pool.append(c)
+    names = ["h/n/m:t", "reg.io/ns/mod-1:v1.0"]
+    ops = [{"op": "put", "d": sha(c), "size": len(c), "src": mk_src(rng, c, "honest"), "k": "honest"} for c in pool]
+    cur = {}
+    for _ in range(rng.randint(3, 7)):
+        name = rng.choice(names)
+        r = rng.random()
+        if r < 0.6:
+            d = sha(rng.choice([c for c in pool if sha(c) != cur.get(name)]))
+            ops.append({"op": "link", "name": rnd_name(rng, tuple(name_to_path(name))) if rng.random() < 0.3 else name, "d": d})
+            cur[name] = d
+        elif r < 0.7:
+            ops.append({"op": "unlink", "name": name})
+            cur.pop(name, None)
+        elif r < 0.8:
+            c = rng.choice(pool)
+            ops.append({"op": "raw", "path": "/".join(name_to_path(name)), "data": hx(c)})     # hand edit, same length
+            cur[name] = sha(c)
+        ops.append({"op": "resolve", "name": name})
+        if rng.random() < 0.3:
+            ops.append({"op": "resolve", "name": name})
+    return {"kind": "hist", "pool": [hx(c) for c in pool], "digests": [sha(c) for c in pool], "ops": ops, "klass": "hist-relink",
+            "clock": rng.choice(["frozen", "frozen", "frozen", "coarse", "normal"]), "probe": names}
 
 
 def gen_staging_hist(rng):
@@ -316,6 +358,8 @@ def gen_staging_hist(rng):
         name = rng.choice(names)
         if r < 0.55:
             ops.append({"op": "link", "name": name if rng.random() < 0.8 else name.upper(), "d": sha(rng.choice(pool))})
+            if rng.random() < 0.6:
+                ops.append({"op": "resolve", "name": name})      # a Resolve between relinks (warms whatever Resolve remembers)
         elif r < 0.75:
             ops.append({"op": "resolve", "name": name})
         elif r < 0.85:
@@ -327,6 +371,7 @@ def gen_staging_hist(rng):
                 ops.append({"op": "raw", "path": "/".join(p[:3] + [p[3] + rng.choice([".tmp", ".partial", "~", ".lock"])]),
                             "data": hx(rng.choice(pool) if rng.random() < 0.7 else rnd_content(rng, n))})
     return {"kind": "hist", "pool": [hx(c) for c in pool], "digests": [sha(c) for c in pool], "ops": ops, "klass": "hist-staging",
+            "clock": rng.choice(["frozen", "frozen", "coarse", "normal"]),
             "probe": sorted({op["name"] for op in ops if op["op"] in ("link", "resolve", "unlink")})}
 
 
@@ -492,6 +537,8 @@ def gen_cases(ctx):
         cases.append(gen_chunk_hist(rng))
     for _ in range(nh // 5):
         cases.append(gen_staging_hist(rng))
+    for _ in range(nh // 6):
+        cases.append(gen_relink_hist(rng))
     for _ in range(nc):
         cases.append(gen_conc(rng))
     return cases
